@@ -42,6 +42,37 @@ theorem snapshots_immutable {K : Type} [Field K] [LinearOrder K] [IsStrictOrdere
     reported (solverNR cfg env fuel) <+: reported (solverNR cfg env (fuel + 1)) :=
   snapshots_immutable_aux cfg env fuel
 
+/-- ... and so for ANY longer run: whatever was reported after `fuel` load steps is still the beginning of
+what is reported after `fuel'` ≥ `fuel` load steps (no later iteration, bisection or restart alters or removes
+an entry already reported). -/
+theorem snapshots_immutable_le {K : Type} [Field K] [LinearOrder K] [IsStrictOrderedRing K]
+    (cfg : Cfg K) (env : Env K) (fuel fuel' : Nat) (h : fuel ≤ fuel') :
+    reported (solverNR cfg env fuel) <+: reported (solverNR cfg env fuel') := by
+  induction fuel', h using Nat.le_induction with
+  | base => exact List.prefix_refl _
+  | succ n _ ih => exact ih.trans (snapshots_immutable cfg env n)
+
+/-- no load factor is reported twice, and the last reported one is the largest. -/
+theorem reported_load_factors_nodup_last_max {K : Type} [Field K] [LinearOrder K] [IsStrictOrderedRing K]
+    (cfg : Cfg K) (h : Admissible cfg) (env : Env K) (fuel : Nat) :
+    ((reported (solverNR cfg env fuel)).map Prod.fst).Nodup ∧
+      ∀ tl, ((reported (solverNR cfg env fuel)).map Prod.fst).getLast? = some tl →
+        ∀ t ∈ (reported (solverNR cfg env fuel)).map Prod.fst, t ≤ tl := by
+  have hp := (reported_increasing_in_unit_interval cfg h env fuel).1
+  refine ⟨hp.imp (fun hlt => ne_of_lt hlt), ?_⟩
+  intro tl hl t ht
+  generalize (reported (solverNR cfg env fuel)).map Prod.fst = L at hp hl ht
+  obtain ⟨L', rfl⟩ : ∃ L', L = L' ++ [tl] := by
+    rcases List.eq_nil_or_concat L with rfl | ⟨L', b, rfl⟩
+    · simp at hl
+    · refine ⟨L', ?_⟩
+      simp at hl
+      simp [hl]
+  rw [List.pairwise_append] at hp
+  rcases List.mem_append.1 ht with ht | ht
+  · exact le_of_lt (hp.2.2 t ht tl (by simp))
+  · simp at ht; exact le_of_eq ht
+
 /-- the bisection loop's `continue` is never taken in exact arithmetic: one pass suffices. -/
 theorem bisect_one_pass {K : Type} [Field K] [LinearOrder K] [IsStrictOrderedRing K]
     (cfg : Cfg K) (n : Nat) (inc total maxTotal : K) (once : Bool) (l : Log K)
